@@ -1,8 +1,27 @@
 /-
-  C16 — Stream framing is independent of how the byte stream is chunked.
+  C16 — Stream framing is independent of how the byte stream is chunked; NetSource conservation.
+
+  Summary of what is proved here (helper lemmas: PyModeS/Proofs/Stream/*.lean):
+
+  * `feed_chunk_invariant_beast`, `feed_chunk_invariant_skysense`: for ARBITRARY byte content and
+    arbitrary chunking, `feedAll fmt cs [] [] = readFmt fmt cs.flatten`.
+  * `feed_chunk_invariant_raw`: the same for AVR raw under `rawWF false cs.flatten` (every `;`
+    closes a message opened by a `*`).  Without that hypothesis the statement is FALSE
+    (`raw_counterexample_1/2/3` below, confirmed on the real `read_raw_buffer`).
+  * `feed_chunk_invariant`: the three packed in one statement.
+  * `feed_resume_*`: the generalisation to a client that has already consumed a stream `s0`.
+  * `beast_frames_scan`, `raw_frames_read`: semantic corollaries for well-formed streams.
+  * `netsource_conservation`, `netsource_sends_iff`, `netsource_call`, `netsource_pending_le_one`.
 -/
 import PyModeS.Model.Stream
+import PyModeS.Proofs.Stream.Feed
+import PyModeS.Proofs.Stream.Beast
+import PyModeS.Proofs.Stream.Raw
+import PyModeS.Proofs.Stream.Sky
+import PyModeS.Proofs.Stream.Net
 namespace PyModeS.C16
+
+open PyModeS.Stream
 
 /-- NetSource: nothing is forwarded and nothing is dropped silently except short frames and other DFs;
     one call with no messages leaves the local buffers untouched when fewer than two ADS-B messages wait. -/
@@ -11,5 +30,480 @@ theorem ns_empty_call (s : NetSrc) (h : s.adsb.length ≤ 1) : nsHandle s [] = (
   simp only [List.foldl_nil]
   have : ¬ (s.adsb.length > 1) := by omega
   simp [this]
+
+/-! ## 1. Chunk invariance -/
+
+/-! ### two-chunk lemmas (one read of `a ++ b` = read `a`, then read (retained buffer ++ `b`)) -/
+
+theorem beast_two_chunk (a b : List Byte) :
+    readFmt .beast (a ++ b)
+      = ((readFmt .beast a).1 ++ (readFmt .beast ((readFmt .beast a).2 ++ b)).1,
+         (readFmt .beast ((readFmt .beast a).2 ++ b)).2) :=
+  readBeast_append a b
+
+theorem skysense_two_chunk (a b : List Byte) :
+    readFmt .skysense (a ++ b)
+      = ((readFmt .skysense a).1 ++ (readFmt .skysense ((readFmt .skysense a).2 ++ b)).1,
+         (readFmt .skysense ((readFmt .skysense a).2 ++ b)).2) :=
+  readSky_append a b
+
+/-- `rawWF false s` (defined in Proofs/Stream/Raw.lean): every `;` (59) of `s` closes a message
+    opened by a `*` (42), i.e. there is a `*` before the first `;` and between any two `;`.
+    Anything else (line ends, garbage, hex digits outside frames, several `*` in a row, an
+    unterminated last frame) is allowed. -/
+theorem raw_two_chunk (a b : List Byte) (hwf : rawWF false (a ++ b) = true) :
+    readFmt .raw (a ++ b)
+      = ((readFmt .raw a).1 ++ (readFmt .raw ((readFmt .raw a).2 ++ b)).1,
+         (readFmt .raw ((readFmt .raw a).2 ++ b)).2) :=
+  readRaw_append a b hwf
+
+/-! ### Beast: arbitrary bytes -/
+
+/-- Generalised form: a client that has consumed `s0` and is then fed the chunks `cs`. -/
+theorem feed_resume_beast (cs : List (List Byte)) (s0 : List Byte) :
+    feedAll .beast cs (readFmt .beast s0).2 (readFmt .beast s0).1 = readFmt .beast (s0 ++ cs.flatten) :=
+  feedAll_resume .beast (fun _ => True) (fun _ _ _ => trivial)
+    (fun a b _ => beast_two_chunk a b) cs s0 trivial
+
+/-- **Chunk invariance, Beast, arbitrary byte content.**  The messages handed on over all reads,
+    concatenated, and the final buffer, are those of ONE read of the whole stream. -/
+theorem feed_chunk_invariant_beast (cs : List (List Byte)) :
+    feedAll .beast cs [] [] = readFmt .beast cs.flatten :=
+  feedAll_of_twoChunk .beast (fun _ => True) (fun _ _ _ => trivial)
+    (fun a b _ => beast_two_chunk a b) readBeast_nil cs trivial
+
+
+/-! Example: two Beast frames — a long DF17 frame whose timestamp contains `0x1A` (escaped) and a
+    short DF11 frame whose signal byte is `0x1A` (escaped) — followed by the start `1A 33` of a third.
+    Cuts: inside the first escape pair, inside the second escape pair, right after the last divider
+    (lone trailing `0x1A`), plus an empty chunk. -/
+def exBeast : List (List Byte) :=
+  [ [0x1A, 0x33, 0x00, 0x1A],
+    [0x1A, 0x02, 0x03, 0x04, 0x05, 0x50, 0x8D, 0x48, 0x40, 0xD6, 0x20, 0x2C, 0xC3, 0x71, 0xC3, 0x2C,
+      0xE0, 0x57, 0x60, 0x98, 0x1A, 0x32, 0x01, 0x02, 0x03, 0x04, 0x05, 0x06, 0x1A],
+    [0x1A, 0x5D, 0x48, 0x4B, 0xA8, 0x98, 0xF8, 0xC6, 0x1A],
+    [],
+    [0x33] ]
+
+example : feedAll .beast exBeast [] [] = readFmt .beast exBeast.flatten :=
+  feed_chunk_invariant_beast exBeast
+
+example : feedAll .beast exBeast [] []
+    = (["8D4840D6202CC371C32CE0576098".toList, "5D484BA898F8C6".toList], [0x1A, 0x33]) := by decide
+
+example : readFmt .beast exBeast.flatten
+    = (["8D4840D6202CC371C32CE0576098".toList, "5D484BA898F8C6".toList], [0x1A, 0x33]) := by decide
+
+/-- every byte delivered separately -/
+example : feedAll .beast (exBeast.flatten.map fun b => [b]) [] []
+    = (["8D4840D6202CC371C32CE0576098".toList, "5D484BA898F8C6".toList], [0x1A, 0x33]) := by decide
+
+/-- garbage (a stray byte before the first divider, escape pairs and dividers in odd places, an
+    unknown frame type, a trailing run of three `0x1A`): still chunk-independent -/
+example : feedAll .beast [[7, 0x1A], [0x1A, 9, 0x1A], [0x31, 1, 0x1A], [0x1A, 0x1A]] [] []
+    = readFmt .beast [7, 0x1A, 0x1A, 9, 0x1A, 0x31, 1, 0x1A, 0x1A, 0x1A] :=
+  feed_chunk_invariant_beast _
+/-! ### Skysense: arbitrary bytes -/
+
+theorem feed_resume_skysense (cs : List (List Byte)) (s0 : List Byte) :
+    feedAll .skysense cs (readFmt .skysense s0).2 (readFmt .skysense s0).1
+      = readFmt .skysense (s0 ++ cs.flatten) :=
+  feedAll_resume .skysense (fun _ => True) (fun _ _ _ => trivial)
+    (fun a b _ => skysense_two_chunk a b) cs s0 trivial
+
+/-- **Chunk invariance, Skysense, arbitrary byte content.** -/
+theorem feed_chunk_invariant_skysense (cs : List (List Byte)) :
+    feedAll .skysense cs [] [] = readFmt .skysense cs.flatten :=
+  feedAll_of_twoChunk .skysense (fun _ => True) (fun _ _ _ => trivial)
+    (fun a b _ => skysense_two_chunk a b) readSky_nil cs trivial
+
+/-! Example: one garbage byte, a long frame, a short frame, and the `$` of a third frame; cut inside
+    the frames and delivered partly byte by byte. -/
+def exSky : List (List Byte) :=
+  [ [0xFF, 0x24, 0x8D], [0x48], [0x40, 0xD6, 0x20, 0x2C, 0xC3, 0x71, 0xC3, 0x2C, 0xE0, 0x57, 0x60, 0x98,
+      0x80, 0, 0, 0, 0, 1, 1, 2], [3], [0x24], [],
+    [0x5D, 0x48, 0x4B, 0xA8, 0x98, 0xF8, 0xC6, 0, 0, 0, 0, 0, 0, 0, 0x80, 0, 0, 0, 0, 2, 4, 5, 6],
+    [0x24] ]
+
+example : feedAll .skysense exSky [] [] = readFmt .skysense exSky.flatten :=
+  feed_chunk_invariant_skysense exSky
+
+example : feedAll .skysense exSky [] []
+    = (["8D4840D6202CC371C32CE0576098".toList, "5D484BA898F8C6".toList], [0x24]) := by decide
+
+example : readFmt .skysense exSky.flatten
+    = (["8D4840D6202CC371C32CE0576098".toList, "5D484BA898F8C6".toList], [0x24]) := by decide
+
+/-! ### AVR raw
+
+  GENERAL STATEMENT (FALSE):
+    `∀ cs, feedAll .raw cs [] [] = readFmt .raw cs.flatten`.
+  Counter-examples (model below; the real `TcpClient.read_raw_buffer` behaves identically:
+  `(['41'], [])` vs `(['1'], [])`, `(['41','41'], [])` vs `(['41',''], [])`,
+  `(['41','41'], [])` vs `(['41','A'], [])`):
+   1. hex digits before any `*`, then `;`, cut inside the digits: `41;` → one read gives "41",
+      reads of `4` then `1;` give "1" (the text collected before a `*` is not retained);
+   2. a second `;` with no `*` in between: `*41;;` → one read emits "41" twice (stale
+      `current_msg`), reads of `*41;` then `;` give "41" then "";
+   3. same with hex garbage after the first `;`: `*41;A;` gives "41","41" vs "41","A".
+  All of them have a `;` that does not close a `*`‑opened message; `rawWF false` excludes exactly that.
+-/
+
+theorem raw_counterexample_1 :
+    readFmt .raw [52, 49, 59] = ([['4', '1']], []) ∧
+    feedAll .raw [[52], [49, 59]] [] [] = ([['1']], []) := by decide
+
+theorem raw_counterexample_2 :
+    readFmt .raw [42, 52, 49, 59, 59] = ([['4', '1'], ['4', '1']], []) ∧
+    feedAll .raw [[42, 52, 49, 59], [59]] [] [] = ([['4', '1'], []], []) := by decide
+
+theorem raw_counterexample_3 :
+    readFmt .raw [42, 52, 49, 59, 65, 59] = ([['4', '1'], ['4', '1']], []) ∧
+    feedAll .raw [[42, 52, 49, 59], [65, 59]] [] [] = ([['4', '1'], ['A']], []) := by decide
+
+/-- the general statement is refuted -/
+theorem feed_chunk_invariant_raw_general_false :
+    ¬ ∀ cs : List (List Byte), feedAll .raw cs [] [] = readFmt .raw cs.flatten := by
+  intro h
+  have := h [[52], [49, 59]]
+  revert this
+  decide
+
+theorem feed_resume_raw (cs : List (List Byte)) (s0 : List Byte)
+    (hwf : rawWF false (s0 ++ cs.flatten) = true) :
+    feedAll .raw cs (readFmt .raw s0).2 (readFmt .raw s0).1 = readFmt .raw (s0 ++ cs.flatten) :=
+  feedAll_resume .raw (fun s => rawWF false s = true) (fun a b h => rawWF_prefix a b false h)
+    (fun a b h => raw_two_chunk a b h) cs s0 hwf
+
+/-- **Chunk invariance, AVR raw**, for every stream in which each `;` closes a `*`
+    (arbitrary garbage otherwise, arbitrary chunking). -/
+theorem feed_chunk_invariant_raw (cs : List (List Byte)) (hwf : rawWF false cs.flatten = true) :
+    feedAll .raw cs [] [] = readFmt .raw cs.flatten :=
+  feedAll_of_twoChunk .raw (fun s => rawWF false s = true) (fun a b h => rawWF_prefix a b false h)
+    (fun a b h => raw_two_chunk a b h) readRaw_nil cs hwf
+
+/-! Example: `*5D48;\n*A0b1;*5` (second frame lower/upper case mixed, third one unterminated) cut
+    inside the frames, with an empty chunk. -/
+def exRaw : List (List Byte) :=
+  [ [42, 53], [68, 52, 56, 59, 10, 42], [65], [], [48, 98, 49, 59, 42], [53] ]
+
+example : feedAll .raw exRaw [] [] = readFmt .raw exRaw.flatten :=
+  feed_chunk_invariant_raw exRaw (by decide)
+
+example : feedAll .raw exRaw [] [] = (["5D48".toList, "A0b1".toList], [42, 53]) := by decide
+
+example : readFmt .raw exRaw.flatten = (["5D48".toList, "A0b1".toList], [42, 53]) := by decide
+
+/-- **Chunk invariance, all three formats** (the hypothesis is only needed for raw). -/
+theorem feed_chunk_invariant (fmt : Fmt) (cs : List (List Byte))
+    (hraw : fmt = .raw → rawWF false cs.flatten = true) :
+    feedAll fmt cs [] [] = readFmt fmt cs.flatten := by
+  cases fmt with
+  | beast => exact feed_chunk_invariant_beast cs
+  | raw => exact feed_chunk_invariant_raw cs (hraw rfl)
+  | skysense => exact feed_chunk_invariant_skysense cs
+
+/-- the same, in the "(msgs, buf)" form of the specification -/
+theorem feed_chunk_invariant' (fmt : Fmt) (cs : List (List Byte))
+    (hraw : fmt = .raw → rawWF false cs.flatten = true) (msgs : List Msg) (buf : List Byte)
+    (h : readFmt fmt cs.flatten = (msgs, buf)) :
+    feedAll fmt cs [] [] = (msgs, buf) := by
+  rw [feed_chunk_invariant fmt cs hraw, h]
+
+/-! ## 2. Semantic corollaries for well-formed streams -/
+
+/-- Beast escaping of one byte -/
+def beastEsc (b : Byte) : List Byte := if b = 0x1A then [0x1A, 0x1A] else [b]
+
+/-- spec serialiser of one Beast frame: divider, then the body with every `0x1A` doubled -/
+def beastFrame (body : List Byte) : List Byte := 0x1A :: body.flatMap beastEsc
+
+/-- a frame body: non-empty, type byte is not `0x1A` -/
+def BeastBody (body : List Byte) : Prop := ∃ ty tl, body = ty :: tl ∧ ty ≠ 0x1A
+
+theorem beastScan_body (body : List Byte) : ∀ (y msg : List Byte) (out : List (List Byte)) (st : List Byte),
+    beastScan (body.flatMap beastEsc ++ y) msg out st = beastScan y (msg ++ body) out st := by
+  induction body with
+  | nil => intro y msg out st; simp
+  | cons b tl ih =>
+    intro y msg out st
+    by_cases hb : b = 0x1A
+    · subst hb
+      simp only [List.flatMap_cons, beastEsc, if_true, List.cons_append, List.nil_append]
+      rw [beastScan_esc, ih]; simp
+    · simp only [List.flatMap_cons, beastEsc, hb, if_false, List.cons_append, List.nil_append]
+      rw [beastScan_ord' b _ msg out st hb, ih]; simp
+
+/-- general form (any scan state) of `beast_frames_scan` -/
+theorem beast_frames_scan_gen (t : Byte) (ht : t ≠ 0x1A) (frames : List (List Byte)) :
+    (∀ body ∈ frames, BeastBody body) →
+    ∀ (msg : List Byte) (out : List (List Byte)) (st : List Byte),
+    beastScan (frames.flatMap beastFrame ++ [0x1A, t]) msg out st
+      = ((if msg.isEmpty then out else msg :: out).reverse ++ frames, [0x1A, t]) := by
+  induction frames with
+  | nil =>
+    intro _ msg out st
+    simp only [List.flatMap_nil, List.nil_append]
+    rw [beastScan_div t [] msg out st ht, beastScan_ord' t [] [] _ _ ht, beastScan_nil]
+    simp
+  | cons body fs ih =>
+    intro hb msg out st
+    obtain ⟨ty, tl, rfl, hty⟩ := hb body (List.mem_cons_self)
+    have hfs : ∀ b ∈ fs, BeastBody b := fun b hb' => hb b (List.mem_cons_of_mem _ hb')
+    have e : beastEsc ty = [ty] := by simp [beastEsc, hty]
+    simp only [List.flatMap_cons, beastFrame, List.cons_append, List.append_assoc]
+    rw [e]
+    simp only [List.cons_append, List.nil_append]
+    rw [beastScan_div ty _ msg out st hty, beastScan_ord' ty _ [] _ _ hty, beastScan_body,
+      ih hfs]
+    by_cases hm : msg.isEmpty <;> simp [hm]
+
+/-- **Beast, well-formed stream**: exactly the frames that are followed by the next frame start come
+    out, un-escaped, in order, each once; the next (incomplete) frame start is retained. -/
+theorem beast_frames_scan (frames : List (List Byte)) (t : Byte) (st : List Byte)
+    (hframes : ∀ body ∈ frames, BeastBody body) (ht : t ≠ 0x1A) :
+    beastScan (frames.flatMap beastFrame ++ [0x1A, t]) [] [] st = (frames, [0x1A, t]) := by
+  rw [beast_frames_scan_gen t ht frames hframes]; simp
+
+/-- the reader on a well-formed stream, however it is chunked -/
+theorem beast_frames_feed (frames : List (List Byte)) (t : Byte)
+    (hframes : ∀ body ∈ frames, BeastBody body) (ht : t ≠ 0x1A)
+    (cs : List (List Byte)) (hcs : cs.flatten = frames.flatMap beastFrame ++ [0x1A, t]) :
+    feedAll .beast cs [] [] = (frames.filterMap beastExtract, [0x1A, t]) := by
+  rw [feed_chunk_invariant_beast, hcs]
+  show readBeast _ = _
+  simp only [readBeast]
+  rw [beast_frames_scan frames t _ hframes ht]
+
+/-- the frames of `exBeast` above: `exBeast.flatten` is their serialisation followed by `1A 33` -/
+def exBeastFrames : List (List Byte) :=
+  [ [0x33, 0x00, 0x1A, 0x02, 0x03, 0x04, 0x05, 0x50, 0x8D, 0x48, 0x40, 0xD6, 0x20, 0x2C, 0xC3, 0x71,
+      0xC3, 0x2C, 0xE0, 0x57, 0x60, 0x98],
+    [0x32, 0x01, 0x02, 0x03, 0x04, 0x05, 0x06, 0x1A, 0x5D, 0x48, 0x4B, 0xA8, 0x98, 0xF8, 0xC6] ]
+
+example : feedAll .beast exBeast [] [] = (exBeastFrames.filterMap beastExtract, [0x1A, 0x33]) :=
+  beast_frames_feed exBeastFrames 0x33
+    (by intro b hb
+        simp only [exBeastFrames, List.mem_cons, List.not_mem_nil, or_false] at hb
+        rcases hb with rfl | rfl <;> exact ⟨_, _, rfl, by decide⟩)
+    (by decide) exBeast (by decide)
+
+/-- spec serialiser of one AVR raw frame: `*`, hex digits, `;`, separator (e.g. `\n` or `\r\n`) -/
+def rawFrame (f : List Byte × List Byte) : List Byte := 42 :: f.1 ++ 59 :: f.2
+
+/-- hex digits only in the text, no `*`/`;` in the separator -/
+def RawFrameOK (f : List Byte × List Byte) : Prop :=
+  (∀ b ∈ f.1, isHexByte b = true) ∧ (∀ b ∈ f.2, b ≠ 59 ∧ b ≠ 42)
+
+theorem isHexByte_ne (b : Nat) (h : isHexByte b = true) : b ≠ 59 ∧ b ≠ 42 := by
+  simp [isHexByte] at h
+  constructor
+  · intro hh; subst hh; simp at h
+  · intro hh; subst hh; simp at h
+
+theorem rawScan_hex (h : List Byte) : (∀ b ∈ h, isHexByte b = true) →
+    ∀ (y : List Byte) (cur : List Char) (out : List Msg) (st : Option (List Byte)),
+    rawScan (h ++ y) cur false out st = rawScan y (cur ++ h.map Char.ofNat) false out st := by
+  induction h with
+  | nil => intro _ y cur out st; simp
+  | cons b tl ih =>
+    intro hh y cur out st
+    have hb := hh b List.mem_cons_self
+    obtain ⟨h59, h42⟩ := isHexByte_ne b hb
+    simp only [List.cons_append]
+    rw [rawScan_other b _ cur false out st h59 h42, ih (fun c hc => hh c (List.mem_cons_of_mem _ hc))]
+    simp [hb]
+
+theorem rawScan_sep (sep : List Byte) : (∀ b ∈ sep, b ≠ 59 ∧ b ≠ 42) →
+    ∀ (y : List Byte) (cur : List Char) (out : List Msg) (st : Option (List Byte)),
+    rawScan (sep ++ y) cur true out st = rawScan y cur true out st := by
+  induction sep with
+  | nil => intro _ y cur out st; simp
+  | cons b tl ih =>
+    intro hh y cur out st
+    obtain ⟨h59, h42⟩ := hh b List.mem_cons_self
+    simp only [List.cons_append]
+    rw [rawScan_other b _ cur true out st h59 h42, ih (fun c hc => hh c (List.mem_cons_of_mem _ hc))]
+    simp
+
+theorem raw_frames_scan_gen (frames : List (List Byte × List Byte)) :
+    (∀ f ∈ frames, RawFrameOK f) →
+    ∀ (cur : List Char) (stop : Bool) (out : List Msg),
+    rawScan (frames.flatMap rawFrame) cur stop out none
+      = (out.reverse ++ frames.map (fun f => f.1.map Char.ofNat), []) := by
+  induction frames with
+  | nil => intro _ cur stop out; simp [rawScan_nil]
+  | cons f fs ih =>
+    intro hf cur stop out
+    obtain ⟨hhex, hsep⟩ := hf f List.mem_cons_self
+    simp only [List.flatMap_cons, rawFrame, List.cons_append, List.append_assoc]
+    rw [rawScan_star, rawScan_hex f.1 hhex, rawScan_semi, rawScan_sep f.2 hsep,
+      ih (fun g hg => hf g (List.mem_cons_of_mem _ hg))]
+    simp
+
+/-- **AVR raw, well-formed stream**: `*hex;sep` sequences give the hex strings, in order, each once,
+    and nothing is retained. -/
+theorem raw_frames_read (frames : List (List Byte × List Byte)) (hf : ∀ f ∈ frames, RawFrameOK f) :
+    readFmt .raw (frames.flatMap rawFrame) = (frames.map (fun f => f.1.map Char.ofNat), []) := by
+  show rawScan _ [] false [] none = _
+  rw [raw_frames_scan_gen frames hf]; simp
+
+/-- such streams satisfy the hypothesis of `feed_chunk_invariant_raw` … -/
+theorem raw_frames_wf (frames : List (List Byte × List Byte)) (hf : ∀ f ∈ frames, RawFrameOK f) :
+    rawWF false (frames.flatMap rawFrame) = true := by
+  have hex : ∀ (h : List Byte), (∀ b ∈ h, isHexByte b = true) → ∀ y op,
+      rawWF op (h ++ y) = rawWF op y := by
+    intro h
+    induction h with
+    | nil => intro _ y op; rfl
+    | cons b tl ih =>
+      intro hh y op
+      obtain ⟨h59, h42⟩ := isHexByte_ne b (hh b List.mem_cons_self)
+      simp only [List.cons_append, rawWF, h59, h42, if_false]
+      exact ih (fun c hc => hh c (List.mem_cons_of_mem _ hc)) y op
+  have sep : ∀ (s : List Byte), (∀ b ∈ s, b ≠ 59 ∧ b ≠ 42) → ∀ y op,
+      rawWF op (s ++ y) = rawWF op y := by
+    intro s
+    induction s with
+    | nil => intro _ y op; rfl
+    | cons b tl ih =>
+      intro hh y op
+      obtain ⟨h59, h42⟩ := hh b List.mem_cons_self
+      simp only [List.cons_append, rawWF, h59, h42, if_false]
+      exact ih (fun c hc => hh c (List.mem_cons_of_mem _ hc)) y op
+  induction frames with
+  | nil => rfl
+  | cons f fs ih =>
+    obtain ⟨hhex, hsep⟩ := hf f List.mem_cons_self
+    simp only [List.flatMap_cons, rawFrame, List.cons_append, List.append_assoc]
+    have h1 : rawWF false (42 :: (f.1 ++ 59 :: (f.2 ++ fs.flatMap rawFrame)))
+        = rawWF true (f.1 ++ 59 :: (f.2 ++ fs.flatMap rawFrame)) := by
+      simp [rawWF]
+    rw [h1, hex f.1 hhex]
+    have h2 : rawWF true (59 :: (f.2 ++ fs.flatMap rawFrame))
+        = rawWF false (f.2 ++ fs.flatMap rawFrame) := by
+      simp [rawWF]
+    rw [h2, sep f.2 hsep]
+    exact ih (fun g hg => hf g (List.mem_cons_of_mem _ hg))
+
+/-- … hence, however chunked, the client hands on exactly the hex strings. -/
+theorem raw_frames_feed (frames : List (List Byte × List Byte)) (hf : ∀ f ∈ frames, RawFrameOK f)
+    (cs : List (List Byte)) (hcs : cs.flatten = frames.flatMap rawFrame) :
+    feedAll .raw cs [] [] = (frames.map (fun f => f.1.map Char.ofNat), []) := by
+  rw [feed_chunk_invariant_raw cs (by rw [hcs]; exact raw_frames_wf frames hf), hcs,
+    raw_frames_read frames hf]
+
+/-- `*5D48;\n*A0b1;\r\n` -/
+def exRawFrames : List (List Byte × List Byte) := [([53, 68, 52, 56], [10]), ([65, 48, 98, 49], [13, 10])]
+
+example : feedAll .raw [[42, 53], [68, 52, 56, 59, 10, 42], [65], [], [48, 98, 49, 59, 13], [10]] [] []
+    = (["5D48".toList, "A0b1".toList], []) :=
+  raw_frames_feed exRawFrames
+    (by intro f hf
+        simp only [exRawFrames, List.mem_cons, List.not_mem_nil, or_false] at hf
+        rcases hf with rfl | rfl <;> exact ⟨by decide, by decide⟩)
+    _ (by decide)
+
+/-! ## 3. NetSource -/
+
+/-- iterate `handle_messages` over successive calls: final local buffers and, per call, what was
+    put on the pipe (`none`: nothing sent) -/
+def nsRun : NetSrc → List (List Msg) → NetSrc × List (Option (List Msg × List Msg))
+  | s, [] => (s, [])
+  | s, c :: cs => ((nsRun (nsHandle s c).1 cs).1, (nsHandle s c).2 :: (nsRun (nsHandle s c).1 cs).2)
+
+/-- all ADS-B messages put on the pipe, in order -/
+def sentAdsb (os : List (Option (List Msg × List Msg))) : List Msg :=
+  os.flatMap (fun o => match o with | none => [] | some (a, _) => a)
+
+/-- all Comm-B messages put on the pipe, in order -/
+def sentCommb (os : List (Option (List Msg × List Msg))) : List Msg :=
+  os.flatMap (fun o => match o with | none => [] | some (_, c) => c)
+
+/-- one call, closed form: all waiting messages are sent and the buffers reset iff at least two
+    ADS-B messages are waiting; otherwise everything is kept. -/
+theorem netsource_call (s : NetSrc) (msgs : List Msg) :
+    nsHandle s msgs =
+      if (s.adsb ++ msgs.filter isAdsb).length ≥ 2 then
+        (⟨[], []⟩, some (s.adsb ++ msgs.filter isAdsb, s.commb ++ msgs.filter isCommb))
+      else (⟨s.adsb ++ msgs.filter isAdsb, s.commb ++ msgs.filter isCommb⟩, none) :=
+  nsHandle_eq s msgs
+
+/-- a batch is sent by a call iff at least two ADS-B messages are waiting after it -/
+theorem netsource_sends_iff (s : NetSrc) (msgs : List Msg) :
+    (nsHandle s msgs).2.isSome = true ↔ (s.adsb ++ msgs.filter isAdsb).length ≥ 2 := by
+  rw [netsource_call]
+  by_cases h : (s.adsb ++ msgs.filter isAdsb).length ≥ 2
+  · rw [if_pos h]; simp only [Option.isSome_some, true_iff]; exact h
+  · rw [if_neg h]; simp only [Option.isSome_none, Bool.false_eq_true, false_iff]; exact h
+
+theorem nsRun_conservation (calls : List (List Msg)) : ∀ s : NetSrc,
+    sentAdsb (nsRun s calls).2 ++ (nsRun s calls).1.adsb = s.adsb ++ calls.flatten.filter isAdsb ∧
+    sentCommb (nsRun s calls).2 ++ (nsRun s calls).1.commb = s.commb ++ calls.flatten.filter isCommb := by
+  induction calls with
+  | nil => intro s; simp [nsRun, sentAdsb, sentCommb]
+  | cons c cs ih =>
+    intro s
+    have h := ih (nsHandle s c).1
+    simp only [nsRun, List.flatten_cons, List.filter_append]
+    rw [netsource_call] at h ⊢
+    by_cases hl : (s.adsb ++ c.filter isAdsb).length ≥ 2
+    · simp only [hl, if_true] at h ⊢
+      simp only [sentAdsb, sentCommb, List.flatMap_cons, List.append_assoc] at h ⊢
+      simp only [List.nil_append] at h
+      exact ⟨by rw [h.1], by rw [h.2]⟩
+    · simp only [hl, if_false] at h ⊢
+      simp only [sentAdsb, sentCommb, List.flatMap_cons, List.nil_append, List.append_assoc] at h ⊢
+      exact h
+
+/-- **NetSource conservation**: over any sequence of calls, what was sent followed by what is still
+    pending is exactly the long DF17/18 (resp. DF20/21) messages of the input, in order, each once. -/
+theorem netsource_conservation (calls : List (List Msg)) :
+    sentAdsb (nsRun ⟨[], []⟩ calls).2 ++ (nsRun ⟨[], []⟩ calls).1.adsb
+      = calls.flatten.filter (fun m => decide (m.length ≥ 28 ∧ (df m = 17 ∨ df m = 18))) ∧
+    sentCommb (nsRun ⟨[], []⟩ calls).2 ++ (nsRun ⟨[], []⟩ calls).1.commb
+      = calls.flatten.filter (fun m => decide (m.length ≥ 28 ∧ (df m = 20 ∨ df m = 21))) := by
+  have h := nsRun_conservation calls ⟨[], []⟩
+  simp only [List.nil_append] at h
+  exact h
+
+/-- one pipe entry per call -/
+theorem nsRun_length (calls : List (List Msg)) : ∀ s : NetSrc, (nsRun s calls).2.length = calls.length := by
+  induction calls with
+  | nil => intro s; rfl
+  | cons c cs ih => intro s; simp [nsRun, ih]
+
+/-- after every call at most one ADS-B message is pending -/
+theorem netsource_pending_le_one (calls : List (List Msg)) : ∀ s : NetSrc, s.adsb.length ≤ 1 →
+    (nsRun s calls).1.adsb.length ≤ 1 := by
+  induction calls with
+  | nil => intro s h; exact h
+  | cons c cs ih =>
+    intro s _
+    simp only [nsRun]
+    apply ih
+    rw [netsource_call]
+    by_cases hl : (s.adsb ++ c.filter isAdsb).length ≥ 2
+    · rw [if_pos hl]; simp
+    · rw [if_neg hl]; show (s.adsb ++ c.filter isAdsb).length ≤ 1; omega
+
+/-! Example: five calls — (DF17, short DF11), (DF20), (DF17, DF21, DF18), (), (DF4 long-looking junk, DF18).
+    The third call is the only one after which two ADS-B messages wait: it sends
+    `([a17, a17, a18], [b20, b21])`; at the end one DF18 is pending. -/
+def a17 : Msg := "8D4840D6202CC371C32CE0576098".toList
+def a18 : Msg := "904840D6202CC371C32CE0576098".toList
+def b20 : Msg := "A0001838CA3E51F0A8000047A36A".toList
+def b21 : Msg := "A8001EBCFFFB23286004A73F6A5B".toList
+def s11 : Msg := "5D484BA898F8C6".toList
+def exCalls : List (List Msg) := [[a17, s11], [b20], [a17, b21, a18], [], ["20001838CA3E51F0A8000047A36A".toList, a18]]
+
+example : nsRun ⟨[], []⟩ exCalls
+    = (⟨[a18], []⟩, [none, none, some ([a17, a17, a18], [b20, b21]), none, none]) := by decide
+
+example : sentAdsb (nsRun ⟨[], []⟩ exCalls).2 ++ (nsRun ⟨[], []⟩ exCalls).1.adsb = [a17, a17, a18, a18] := by
+  rw [(netsource_conservation exCalls).1]; decide
+
+example : sentCommb (nsRun ⟨[], []⟩ exCalls).2 ++ (nsRun ⟨[], []⟩ exCalls).1.commb = [b20, b21] := by
+  rw [(netsource_conservation exCalls).2]; decide
 
 end PyModeS.C16
